@@ -296,6 +296,10 @@ func ExplorePartC(name string, mk func() (*Env, Driver), depthQuick, depthThorou
 			}
 			// confirm + minimise each violation
 			for _, v := range r.Violations {
+				if v.PreConfirmed {
+					rep.Violations = append(rep.Violations, v)
+					continue
+				}
 				cv, ok, why := Confirm(mk, v, 5)
 				if !ok {
 					if HistoryDependentOK {
@@ -314,15 +318,24 @@ func ExplorePartC(name string, mk func() (*Env, Driver), depthQuick, depthThorou
 					// is repeated in the same order. Decide by repeating a single-worker (deterministic-order)
 					// exploration to the depth of the path twice: the same signature both times = history-dependent
 					// implementation state, kept as a violation whose replay re-runs that exploration.
+					// (first to the depth of the path - cheap -, then to the full depth of the part: which executions
+					// precede a state depends on how far the search goes)
 					rd := len(v.Path)
-					recurs := rd > 0 && rd <= depth
-					for i := 0; i < 2 && recurs; i++ {
-						rr := Explore(Config{Depth: rd, Workers: 1, TxSeqInCanon: txSeq, MaxViolations: 200, Seed: Seed()}, mk)
-						found := false
-						for _, x := range rr.Violations {
-							found = found || x.Sig == v.Sig
+					recurs := false
+					for _, try := range []int{rd, depth} {
+						if try <= 0 || try > depth || recurs {
+							continue
 						}
-						recurs = found
+						rd = try
+						recurs = true
+						for i := 0; i < 2 && recurs; i++ {
+							rr := Explore(Config{Depth: rd, Workers: 1, TxSeqInCanon: txSeq, MaxViolations: 200, Seed: Seed(), Deadline: deadline}, mk)
+							found := false
+							for _, x := range rr.Violations {
+								found = found || x.Sig == v.Sig
+							}
+							recurs = found
+						}
 					}
 					if recurs {
 						v.Detail += " [does not show on a linear replay from a fresh application instance, but recurs whenever the same single-worker exploration is repeated: the result depends on state this process kept from earlier executions (outside the stores); replay re-runs the exploration]"
@@ -338,6 +351,20 @@ func ExplorePartC(name string, mk func() (*Env, Driver), depthQuick, depthThorou
 			return rep
 		},
 		Replay: func(path []string) ([]Finding, error) {
+			if len(path) > 0 && path[0] == "<warm-vs-fresh>" {
+				// replays by running the exploration of this part again (the comparison is between the instance that
+				// did the splitting search and fresh worker instances)
+				depth := depthQuick
+				if Tier() == "thorough" {
+					depth = depthThorough
+				}
+				r := Explore(Config{Depth: depth, Workers: 16, TxSeqInCanon: txSeq, MaxViolations: 50, Seed: Seed()}, mk)
+				var fs []Finding
+				for _, v := range r.Violations {
+					fs = append(fs, v.Finding)
+				}
+				return fs, nil
+			}
 			if len(path) > 0 && strings.HasPrefix(path[0], "<re-explore depth=") {
 				var depth int
 				fmt.Sscanf(path[0], "<re-explore depth=%d>", &depth)
@@ -548,6 +575,9 @@ func RunReplay(property string, parts []Part, file string) int {
 			}
 		}
 		fmt.Println("not reproduced: signature absent on this tree")
+		for _, f := range fs {
+			fmt.Printf("  (other finding on this path: %s: %s)\n", f.Sig, clip(f.Detail))
+		}
 		return 0
 	}
 	fmt.Fprintln(os.Stderr, "no such part:", r.Part)
